@@ -38,7 +38,11 @@ func genCase(t *rapid.T) c02Case {
 		t.Fatalf("generated layout rejected: %v", err)
 	}
 	c := c02Case{Layout: l}
-	c.Data = g.GenData(40)
+	rows := 40
+	if pbt.Tier() == "thorough" {
+		rows = 120
+	}
+	c.Data = g.GenData(rows)
 	c.SQL = g.Select()
 	return c
 }
